@@ -737,15 +737,19 @@ pub fn emptied(kind: &str, b: &[u8], which: u8) -> Option<Vec<u8>> {
         }
         "usk" => {
             let mut p = UskParts::from(b)?;
-            match which % 4 {
+            match which % 7 {
                 0 => p.id.clear(),
                 1 => p.ps.clear(),
                 2 => p.rights.clear(),
-                _ => {
+                3 => {
                     p.id.clear();
                     p.ps.clear();
                     p.rights.clear();
                 }
+                // a right that announces zero secrets (count and elements consistent)
+                4 => p.rights.first_mut()?.1.clear(),
+                5 => p.rights.last_mut()?.1.clear(),
+                _ => p.rights.insert(0, (vec![0x7f], vec![])),
             }
             Some(p.build())
         }
